@@ -208,6 +208,18 @@ def build():
     one(r"if\s+opt_rec\.version\(\)\s*>\s*EDNS_VERSION_ZERO\s*\{.*?OptRcode::BADVERS", pre, "edns: version > 0 => BADVERS")
     if not (pre.find("iter.next().is_some()") < pre.find("Err(err) =>") < pre.find("opt_rec.version() >") < pre.find("set_max_response_size_hint")):
         raise GenError("edns preprocess: order of the OPT checks / negotiation changed")
+    # does the server parse the whole receive buffer or only the octets received?
+    pad_fixed = re.findall(r"let\s+buf\s*=\s*if\s+buf\.as_ref\(\)\.len\(\)\s*==\s*bytes_read\s*\{\s*buf\s*\}\s*else\s*\{\s*let\s+mut\s+msg\s*=\s*self\.buf\.create_sized\(bytes_read\)\s*;\s*"
+                           r"msg\.as_mut\(\)\[\.\.bytes_read\]\s*\.copy_from_slice\(&buf\.as_ref\(\)\[\.\.bytes_read\]\)\s*;\s*msg\s*\}\s*;\s*match\s+Message::from_octets\(buf\)", dpm)
+    one(r"match\s+Message::from_octets\(buf\)\s*\{", dpm, "dgram: the buffer is parsed as the message")
+    n_br = len(re.findall(r"\bbytes_read\b", dpm))
+    if pad_fixed:
+        if n_br != 5:
+            raise GenError("dgram process_received_message: unexpected uses of bytes_read")
+    elif n_br != 1:
+        raise GenError("dgram process_received_message: bytes_read is used beyond the trace output, re-transcribe what is parsed")
+    one(r"let\s+mut\s+msg\s*=\s*self\.buf\.create_buf\(\)\s*;\s*let\s+mut\s+buf\s*=\s*ReadBuf::new\(msg\.as_mut\(\)\)\s*;", fn_body(dg, "recv_from"), "dgram recv_from reads into create_buf()")
+    defs.append(("dgram_parses_whole_buffer", "bool", "false" if pad_fixed else "true"))
     one(r"mk_error_response::<Buf::Output,\s*Svc::Target>\(\s*&msg,\s*OptRcode::FORMERR,?\s*\)", dpm, "dgram: QR=1 => FORMERR, sent without the middleware")
     sv = strip_comments(read("src/net/server/service.rs"))
     rcf = fn_body(sv, "rcode", after="impl ServiceError")
